@@ -69,3 +69,7 @@ Theorem unary_none_is_eof fs : snd (rrun RIdle fs) = [] -> unary_read fs = UEof.
 Proof. unfold unary_read. intros ->. reflexivity. Qed.
 
 End L.
+
+Arguments UEof {A}.
+Arguments UTooMany {A}.
+Arguments UBad {A}.
